@@ -132,7 +132,8 @@ def run(chk):
     chk.borrow(c05.run, {"C05.R1": "C10.R3", "C05.R2": "C10.R3", "C05.R5": "C10.R3"})
     # R4 data order
     chk.borrow(c06.r4, {"C06.R4": "C10.R4"})
-    chk.obs = [o for o in chk.obs if not (o.rule == "C10.R4" and o.key not in ("ascending-order", "aligned-pairs", "polling-data"))]
+    chk.obs = [o for o in chk.obs if not (o.rule == "C10.R4" and o.key not in ("ascending-order", "aligned-pairs", "polling-data", "style-threshold-filter"))]  # (the filter: a card within the
+    # threshold in one round is within the larger threshold of the next, so the data are extended, never replaced)
     # ... and the two samples are put into that order in place, by the same key (C07.R6)
     chk.borrow(c07.r6, {"C07.R6": "C10.R4"})
     chk.obs = [o for o in chk.obs if not (o.rule == "C10.R4" and o.key in ("selection-order-recorded",))]
